@@ -90,7 +90,7 @@ ASSUMPTIONS = [
     "a response/exception only counts as a rejection if some serial order produces the same response",
 ]
 TIERS = {
-    "quick": {"scenarios": 1280, "per_scenario": 20, "exhaustive_every": 0, "budget_s": 75,
+    "quick": {"scenarios": 1280, "per_scenario": 20, "exhaustive_every": 0, "budget_s": 75, "shrink_s": 12, "shrink_total_s": 150,
               "max_top": 6, "max_depth": 2, "max_pre": 16, "post": [5, 9]},
     "thorough": {"scenarios": 2400, "per_scenario": 24, "exhaustive_every": 3, "exhaustive_max_events": 1500, "budget_s": 840,
                  "max_top": 10, "max_depth": 3, "max_pre": 30, "post": [6, 14], "shrink_s": 120},
@@ -485,10 +485,9 @@ def _normalise(obs):
 
 COMPONENTS = ["deadlock", "tick_raised", "resp", "step_events", "post_raised", "post_events", "state", "tags", "method_state",
               "method", "pending", "wiring", "runlog"]
-SYMPTOM = {"deadlock": "deadlock", "tick_raised": "tick-exception", "resp": "response", "step_events": "diverged-effects",
-           "post_raised": "diverged-effects", "post_events": "diverged-effects", "state": "diverged-state", "tags": "diverged-state",
-           "method_state": "diverged-state", "method": "diverged-state", "pending": "diverged-state", "wiring": "diverged-state",
-           "runlog": "diverged-runlog"}
+# symptom part of the signature (the component that differs is named in the message, not in the signature: which component
+# shows a broken interleaving first depends on the method at hand, the root cause does not)
+SYMPTOM = {"deadlock": "deadlock", "tick_raised": "tick-exception", "resp": "response"}
 
 
 def _components(obs):
@@ -595,6 +594,7 @@ def judge(scen, switches, ref: Reference | None = None, _single: bool = False):
     info.update({"matches": matches, "first_phase": first_phase, "ran_phases": ran_phases, "r_blocked": bool(blocked),
                  "t_blocked": any(who == "T" for who, _, _ in b.lock_blocks), "n_sw": len(switches),
                  "in_execute": any(p in LOCKED_PHASES for p in ran_phases + blocked), "matters": ref.matters,
+                 "straddle": bool(b.r_mid_request_at_t_end),
                  "events": b.n, "elig": ref.elig})
     if matches:
         return [], info
@@ -605,9 +605,15 @@ def judge(scen, switches, ref: Reference | None = None, _single: bool = False):
             if vs1:
                 info["symptom"] = info1["symptom"] + "(single)"
                 return vs1, info
-    # phase: where the ticking thread stood when the request thread ran its LAST piece of request code (a request that
-    # starts before the lock is taken and is pre-empted half-way overlaps the phases the tick reaches meanwhile)
-    phase = (ran_phases or blocked or [first_phase])[-1]
+    # phase: the first phase of the locked section of tick during which request code ran; a request that began before the
+    # lock was taken, was pre-empted half-way and finished after the tick is labelled straddle
+    locked = [p for p in ran_phases if p in LOCKED_PHASES]
+    if locked:
+        phase = locked[0]
+    elif b.r_mid_request_at_t_end and ran_phases:
+        phase = "straddle"
+    else:
+        phase = (ran_phases or blocked or [first_phase])[0]
     kinds = "+".join(sorted(set(ref.kinds)))
     if got["deadlock"]:
         symptom = "deadlock"
@@ -617,7 +623,8 @@ def judge(scen, switches, ref: Reference | None = None, _single: bool = False):
         if lost:
             symptom = "lost"
         else:
-            symptom = SYMPTOM[max(diffs, key=COMPONENTS.index)]
+            comp = max(diffs, key=COMPONENTS.index)
+            symptom = SYMPTOM.get(comp, "diverged")
     sig = "%s:%s:%s" % (kinds, phase, symptom)
     detail = _explain(got, ref, symptom)
     msg = ("requests %s at switch positions %r (baton given to the request thread while tick was in phase %r; state at the step "
@@ -767,6 +774,9 @@ def shrink_hints(case):
     """smaller candidates the generic shrinker cannot guess: fewer switches / requests, shorter prefix and post"""
     s = case["scen"]
     sw = case["sw"]
+    if len(sw) > 1:
+        for x in sw:
+            yield {"scen": s, "sw": [x]}
     for i in range(len(sw)):
         yield {"scen": s, "sw": sw[:i] + sw[i + 1:]}
     if len(s["reqs"]) == 2:
@@ -824,6 +834,8 @@ def _classes(info):
         cl.append("request-blocked-on-lock")
     if info["t_blocked"]:
         cl.append("tick-blocked-on-lock")
+    if info["straddle"]:
+        cl.append("request-began-before-and-ended-after-the-tick-finished")
     cl.append("request-matters" if info["matters"] else "request-without-observable-effect")
     for e in info["elig"]:
         if e:
